@@ -6,6 +6,7 @@ import (
 	"fmt"
 	"os"
 	"runtime"
+	"sort"
 	"strings"
 	"time"
 )
@@ -100,6 +101,23 @@ func printStats(st *HarnessStats) {
 	}
 	for _, k := range sortedKeys(st.Unsupported) {
 		fmt.Printf("   UNSUPPORTED %d× %s\n", st.Unsupported[k], k)
+	}
+	if len(st.Sites) > 0 {
+		type kv struct {
+			k string
+			v int
+		}
+		var l []kv
+		for k, v := range st.Sites {
+			l = append(l, kv{k, v})
+		}
+		sort.Slice(l, func(i, j int) bool { return l[i].v > l[j].v })
+		for i, x := range l {
+			if i >= 25 {
+				break
+			}
+			fmt.Printf("   infeasible-site %7d  %s\n", x.v, x.k)
+		}
 	}
 	seen := map[string]int{}
 	for _, v := range st.Violations {
